@@ -177,6 +177,14 @@ class Ctx:
         rc, out = self.coq_make(["Extract/%s.vo" % extract_v[:-2]])
         if rc != 0:
             raise CheckError("extraction build failed:\n" + out[-3000:])
+        import fcntl
+        with open(os.path.join(WORK, "ocaml", name + ".lock"), "w") as lk:
+            # several checks share one driver (the protocol properties): one build at a time, and the executable is
+            # replaced atomically (another check may be running the previous one)
+            fcntl.flock(lk, fcntl.LOCK_EX)
+            return self._build_mcheck_locked(name, d, extract_v, driver_ml, extra_ml)
+
+    def _build_mcheck_locked(self, name, d, extract_v, driver_ml, extra_ml):
         # the Extraction command writes into the cwd of coqc; re-run it there
         rc, out, _ = sh(["coqc", "-Q", COQ, "OC", "-w", "none", "-o", os.path.join(d, extract_v[:-2] + ".vo"),
                          os.path.join(COQ, "Extract", extract_v)], cwd=d, timeout=600)
@@ -189,10 +197,12 @@ class Ctx:
         mls = sorted(f for f in os.listdir(d) if f.endswith(".ml") and f not in srcs)
         mlis = [f + "i" for f in mls if os.path.exists(os.path.join(d, f + "i"))]
         exe = os.path.join(BIN, name + "_mcheck")
+        tmp = exe + ".new.%d" % os.getpid()
         rc, out, _ = sh(["ocamlfind", "ocamlopt", "-O2" if False else "-inline", "50", "-package", "str,unix",
-                         "-linkpkg", "-w", "-a"] + mlis + mls + srcs + ["-o", exe], cwd=d, timeout=600)
+                         "-linkpkg", "-w", "-a"] + mlis + mls + srcs + ["-o", tmp], cwd=d, timeout=600)
         if rc != 0:
             raise CheckError("ocaml build failed:\n" + out[-3000:])
+        os.replace(tmp, exe)
         return exe
 
     # ---------------------------------------------------------------- Go --
